@@ -621,6 +621,28 @@ fn exec_inner(t: &[&str]) -> Option<(String, Vec<String>, bool, Vec<String>)> {
                 return None;
             }
             has_model &= msg_has_model(&buf, false);
+            // other entry points that take the same network bytes (implementation-vs-oracle only):
+            // the client's DnsResponse::from_buffer and the TSIG "to be signed" extraction, which
+            // re-parses the message (rr/rdata/tsig.rs signed_bitmessage_to_buf)
+            match catch(|| hickory_proto::op::DnsResponse::from_buffer(buf.clone()).is_ok()) {
+                Ok(ok) => {
+                    let want = Message::from_vec(&buf).map(|m| m.metadata.message_type == MessageType::Response).unwrap_or(false);
+                    if ok != want {
+                        fails.push(format!("DnsResponse::from_buffer is_ok()={ok} but Message::from_vec says response={want}"));
+                    }
+                }
+                Err(p) => fails.push(format!("panic in DnsResponse::from_buffer: {p}")),
+            }
+            for (prev, first) in [(None, true), (Some(&[7u8; 32][..]), false)] {
+                match catch(|| hickory_proto::rr::rdata::tsig::signed_bitmessage_to_buf(&buf, prev, first).map(|(tbs, rr)| (tbs.len(), rr.name.clone()))) {
+                    Ok(Ok((_, n))) => {
+                        stats.push("tsigtbs.ok".into());
+                        check_name(&n, &mut fails);
+                    }
+                    Ok(Err(_)) => stats.push("tsigtbs.err".into()),
+                    Err(p) => fails.push(format!("panic in signed_bitmessage_to_buf(first_message={first}): {p}")),
+                }
+            }
             let (r, dt) = timed_retry(|| Message::from_vec(&buf));
             if dt > BUDGET {
                 fails.push(format!("Message::from_vec took {dt:?} (> {BUDGET:?}) on {} bytes", buf.len()));
@@ -2016,6 +2038,67 @@ fn sweep_cases(r: &mut Rng) -> Vec<String> {
     out
 }
 
+// ---------------------------------------------------------------- family: every decoder sees every shape
+// For every record type: one (quick) / several (thorough) small well-formed RDATA, then
+//   * truncated at every offset               (`rdata`, and `record` whose RDLENGTH is the truncated length)
+//   * every octet +1 and -1                   (hits every length / count / code field without knowing the format)
+//   * trailing garbage of 1, 2 and a few octets (`rdata`, and `record` whose RDLENGTH covers the garbage)
+fn shape_cases(r: &mut Rng, samples: usize) -> Vec<String> {
+    let mut out = vec![];
+    for &t in WIRE_TYPES {
+        let mut got = 0;
+        let mut tries = 0;
+        while got < samples && tries < 400 {
+            tries += 1;
+            let rd = if SEEDED.contains(&t) && r.chance(1, 2) { seed_rdata(r, t) } else { extreme_rdata(r, t) };
+            if rd.is_empty() || rd.len() > 90 {
+                continue;
+            }
+            if !matches!(catch(|| RData::read(BinDecoder::new(&rd), RecordType::from(t)).is_ok()), Ok(true)) {
+                continue;
+            }
+            got += 1;
+            let rec_of = |rd: &[u8]| {
+                let (owner, class): (&[u8], u16) = if t == 41 { (&[0], 4096) } else { (&[1, b'o', 0], 1) };
+                let mut v = owner.to_vec();
+                v.extend(t.to_be_bytes());
+                v.extend(class.to_be_bytes());
+                v.extend([0, 0, 0, 60]);
+                v.extend((rd.len() as u16).to_be_bytes());
+                v.extend(rd);
+                v
+            };
+            for n in 0..rd.len() {
+                out.push(format!("rdata {t} {} 0 #truncate", hex(&rd[..n])));
+                if n > 0 {
+                    out.push(format!("record {} 0 #truncate", hex(&rec_of(&rd[..n]))));
+                }
+            }
+            for i in 0..rd.len() {
+                for d in [1u8, 255] {
+                    let mut m = rd.clone();
+                    m[i] = m[i].wrapping_add(d);
+                    out.push(format!("rdata {t} {} 0 #plusminus1", hex(&m)));
+                }
+            }
+            for g in [vec![0u8], vec![0xFF], vec![0, 0], vec![0xC0, 0x00], r.bytes(5)] {
+                let mut m = rd.clone();
+                m.extend(&g);
+                out.push(format!("rdata {t} {} 0 #trailing", hex(&m)));
+                out.push(format!("record {} 0 #trailing", hex(&rec_of(&m))));
+                // garbage after the record (outside RDLENGTH) must be left alone by Record::read
+                let mut rec = rec_of(&rd);
+                rec.extend(&g);
+                out.push(format!("record {} 0 #trailing", hex(&rec)));
+            }
+        }
+        if got < samples {
+            out.push(format!("rdata {t} - 0 #shape-sample-missing"));
+        }
+    }
+    out
+}
+
 fn generate(o: &Opts, rec: &mut Recorder, w: &Watch) {
     let mut r = Rng::new(o.seed);
     // pointer graphs first: a pointer cycle that is followed is a hang, better found early
@@ -2028,6 +2111,9 @@ fn generate(o: &Opts, rec: &mut Recorder, w: &Watch) {
     if o.thorough() {
         fam.extend(sweep_cases(&mut r));
     }
+    fam.extend(shape_cases(&mut r, if o.thorough() { 8 } else { 1 }));
+    rec.stat(&format!("info.size_of.Record.{}", std::mem::size_of::<Record>()));
+    rec.stat(&format!("info.size_of.Query.{}", std::mem::size_of::<Query>()));
     for l in fam {
         // "<case line> #<family>"
         let (line, tag) = l.rsplit_once(" #").unwrap_or((&l, "?"));
@@ -2036,6 +2122,14 @@ fn generate(o: &Opts, rec: &mut Recorder, w: &Watch) {
         rec.stat(&format!("gen.family.{tag}.{op}"));
         if op == "rdata" {
             rec.stat(&format!("gen.family.{tag}.type.{}", t.next().unwrap_or("?")));
+        } else if op == "record" && (tag == "truncate" || tag == "trailing") {
+            // type code of the record: after the owner (1 octet root or 3 octets "o.")
+            if let Some(b) = t.next().and_then(unhex) {
+                let off = if b.first() == Some(&0) { 1 } else { 3 };
+                if let Some(ty) = u16_at(&b, off) {
+                    rec.stat(&format!("gen.family.{tag}.rectype.{ty}"));
+                }
+            }
         }
         exec(line, rec, w);
     }
